@@ -1,4 +1,119 @@
-(* stub: executable interface of group Etrade *)
-From Coq Require Import List ZArith.
+(* Executable interface of the E*TRADE matching model (group etrade, C19).
+   Case:   1 :: arith :: benefits :: trades        (arith: 0 exact, 1 dec)
+     benefits = n :: n * [sec; date; settle; price(n,d); shares(n,d);
+                          opt td; opt sd; optq price; optq shares; optq fee;
+                          note; opt sell_note]
+       opt x  = flag :: x        optq q = flag :: num :: den
+     trades   = n :: n * [sec; td; sd; act(0 buy,1 sell); price(n,d); shares(n,d); comm(n,d); tag]
+   Result: 0 :: warnings :: rows :: matched      rows emitted
+             rows    = n :: n * [sec; td; sd; act; shares(n,d); price(n,d); comm(n,d);
+                                 memo kind; memo note; sell-note flag; sell note; read_index; acb_accepts]
+             matched = n :: n * (k :: k * tag)     per benefit the tags of the trades it consumed
+           1 :: n :: n * [benefit index; kind(0 no match, 1 ambiguous)]     amend errors
+           2 :: code        other error (code 1902: incomplete sell-to-cover data)
+           3 :: panic(kind, site)
+           (-1)             malformed case *)
+From Coq Require Import List NArith ZArith QArith Qcanon Bool.
+From ACB Require Import Base.Outcome Base.QcExtra Base.Fit Base.Arith Model.Etrade.
 Import ListNotations.
-Definition dispatch (l : list Z) : list Z := [(-9)%Z].
+Local Open Scope Z_scope.
+
+Definition P (T : Type) : Type := list Z -> option (T * list Z).
+Definition pret {T} (v : T) : P T := fun l => Some (v, l).
+Definition pbind {T U} (p : P T) (f : T -> P U) : P U :=
+  fun l => match p l with Some (v, r) => f v r | None => None end.
+Notation "x <~ p ;; k" := (pbind p (fun x => k)) (at level 100, p at next level, right associativity).
+
+Definition pZ : P Z := fun l => match l with z :: r => Some (z, r) | [] => None end.
+Definition pN : P N := z <~ pZ ;; pret (Z.to_N z).
+Definition pbool : P bool := z <~ pZ ;; pret (negb (z =? 0)).
+Definition pQ : P Qc := n <~ pZ ;; d <~ pZ ;; pret (Qcfrac n (Z.to_pos d)).
+Definition popt {T} (p : P T) : P (option T) :=
+  f <~ pbool ;; v <~ p ;; pret (if f then Some v else None).
+
+Fixpoint prep {T} (n : nat) (p : P T) : P (list T) :=
+  match n with
+  | O => pret []
+  | S k => x <~ p ;; r <~ prep k p ;; pret (x :: r)
+  end.
+Definition plist {T} (p : P T) : P (list T) :=
+  fun l => match l with
+           | z :: r => prep (Z.to_nat z) p r
+           | [] => None
+           end.
+
+Definition pact : P act := z <~ pZ ;; pret (if z =? 0 then ABuy else ASell).
+
+Definition pbenefit : P benefit :=
+  sec <~ pN ;; d <~ pZ ;; s <~ pZ ;; pr <~ pQ ;; sh <~ pQ ;;
+  std <~ popt pZ ;; ssd <~ popt pZ ;; spr <~ popt pQ ;; ssh <~ popt pQ ;; sfee <~ popt pQ ;;
+  note <~ pN ;; sn <~ popt pN ;;
+  pret {| b_sec := sec; b_date := d; b_settle := s; b_price := pr; b_shares := sh;
+          b_stc_td := std; b_stc_sd := ssd; b_stc_price := spr; b_stc_shares := ssh;
+          b_stc_fee := sfee; b_note := note; b_sell_note := sn |}.
+
+Definition ptrade : P trade :=
+  sec <~ pN ;; td <~ pZ ;; sd <~ pZ ;; a <~ pact ;; pr <~ pQ ;; sh <~ pQ ;; cm <~ pQ ;; tg <~ pN ;;
+  pret {| t_sec := sec; t_td := td; t_sd := sd; t_act := a; t_price := pr; t_shares := sh;
+          t_comm := cm; t_tag := tg |}.
+
+Definition oQ (q : Qc) : list Z := [Qnum (this q); Zpos (Qden (this q))].
+Definition obool (b : bool) : Z := if b then 1 else 0.
+Definition oact (a : act) : Z := match a with ABuy => 0 | ASell => 1 end.
+
+Definition opanic (p : panic) : list Z :=
+  match p with
+  | PanicOverflow => [1; 0] | PanicDivZero => [2; 0]
+  | PanicConstraint s => [3; Z.of_N s] | PanicAssert s => [4; Z.of_N s]
+  | PanicMissing s => [5; Z.of_N s]
+  end.
+Definition orej (r : rej) : Z :=
+  match r with RejOther n => Z.of_N n | _ => 0 end.
+
+Definition omemo (m : memo) : list Z :=
+  match m with
+  | MemoPlan n => [0; Z.of_N n; 0; 0]
+  | MemoPlanSell n None => [1; Z.of_N n; 0; 0]
+  | MemoPlanSell n (Some s) => [1; Z.of_N n; 1; Z.of_N s]
+  | MemoManual => [2; 0; 0; 0]
+  end.
+
+Definition orow (r : row) : list Z :=
+  let c := r_core r in
+  [Z.of_N (c_sec c); c_td c; c_sd c; oact (c_act c)]
+    ++ oQ (c_shares c) ++ oQ (c_price c) ++ oQ (c_comm c) ++ omemo (c_memo c)
+    ++ [Z.of_nat (r_ri r); obool (acb_accepts c)].
+
+Definition olist {T} (f : T -> list Z) (l : list T) : list Z :=
+  Z.of_nat (length l) :: flat_map f l.
+
+Definition oerr (e : amend_err) : list Z :=
+  match e with AmendErr i k => [Z.of_nat i; match k with NoMatch => 0 | Ambiguous => 1 end] end.
+
+Definition run_case (A : arith) (bs : list benefit) (ts : list trade) : list Z :=
+  match amend_benefit_sales A bs ts with
+  | Panic p => 3 :: opanic p
+  | Rej r => [2; orej r]
+  | Ok am =>
+      match am_errs am with
+      | _ :: _ => 1 :: olist oerr (am_errs am)
+      | [] =>
+          match txs_from_data (am_benefits am) (am_left am) with
+          | Panic p => 3 :: opanic p
+          | Rej r => [2; orej r]
+          | Ok rows =>
+              [0; Z.of_nat (am_warn am)] ++ olist orow rows
+                ++ olist (fun m => olist (fun t => [Z.of_N (t_tag t)]) m) (am_matched am)
+          end
+      end
+  end.
+
+Definition dispatch (l : list Z) : list Z :=
+  match l with
+  | 1 :: a :: rest =>
+      match (bs <~ plist pbenefit ;; ts <~ plist ptrade ;; pret (bs, ts)) rest with
+      | Some ((bs, ts), []) => run_case (if a =? 0 then exact else dec) bs ts
+      | _ => [-1]
+      end
+  | _ => [-1]
+  end.
